@@ -81,7 +81,10 @@ func c06Case(c *core.Ctx, idx int) {
 		if !multi {
 			seenVals, seenRefs = append(seenVals, model.DeepCopy(v)), append(seenRefs, ref)
 		}
-		// repetitions
+		// repetitions, with a schema query on the same instance in between
+		if j == 1 || j == 4 {
+			describe(tc.p, tc.typ)
+		}
 		for k := 0; k < 2; k++ {
 			again, err, pn := marshal(tc.p, nil, ptrTo(v))
 			rec.Eval(1)
